@@ -60,7 +60,8 @@ def run(chk, repo: Repo):
     _r3(chk, repo)
     _r4_r5(chk, repo)
     chk.rule("C16-R6", "Levenberg-Marquardt: accepting the trial point replaces every quantity that was computed from the iterate "
-                       "(residual, Jacobian, objective) by its trial twin in the same branch", floor=3)
+                       "(residual, Jacobian, objective) by its trial twin in the same branch; every increase of the damping parameter is max(grow*nu, self.nu0) "
+                       "with the same floor (a floor 0 repeats a rejected Gauss-Newton step unchanged until maxit)", floor=3)
     _r6(chk, repo)
     _r6_damping_floor(chk, repo)
 
